@@ -241,8 +241,18 @@ def judge_specs(mod, drv, specs):
         try:
             w = exec_one(mod, s)
         except Exception as e:
-            res[i] = (s, None, {"ok": None, "error": "harness: " + "".join(traceback.format_exception_only(type(e), e)).strip(),
-                                "trace": traceback.format_exc()[-1500:]})
+            tb = traceback.extract_tb(e.__traceback__)
+            inner = tb[-1].filename if tb else ""
+            if os.path.abspath(inner).startswith(os.path.abspath(SRC)):
+                # the library itself raised where the harness expected an ordinary value (while building the inputs or
+                # observing the result through the public API): that is a failing case, not an infrastructure problem
+                res[i] = (s, {"impl": {"raised": type(e).__name__}},
+                          {"ok": False, "why": "library raised " + "".join(traceback.format_exception_only(type(e), e)).strip()[:200]
+                           + f" at {os.path.relpath(inner, SRC)}:{tb[-1].lineno} while the case was being built/observed",
+                           "model": None})
+            else:
+                res[i] = (s, None, {"ok": None, "error": "harness: " + "".join(traceback.format_exception_only(type(e), e)).strip(),
+                                    "trace": traceback.format_exc()[-1500:]})
             continue
         if w.get("skip"):
             res[i] = (s, w, {"ok": True, "skipped": True, "why": w.get("skip")})
